@@ -252,6 +252,25 @@ func (bucket *Bucket) getCollection(name sgbucket.DataStoreNameImpl) (*Collectio
 	return bucket.getOrCreateCollection(name, false)
 }
 
+// getCurrentCollection is getCollection for a caller that may run on a handle whose cache predates a drop and
+// re-creation of the collection through another handle (the expiry sweep): a cached Collection whose row id is
+// no longer the collection's is replaced.
+func (bucket *Bucket) getCurrentCollection(name sgbucket.DataStoreNameImpl) (*Collection, error) {
+	bucket.mutex.Lock()
+	defer bucket.mutex.Unlock()
+
+	id, err := bucket._getCollectionID(name.Scope, name.Collection)
+	if err == sql.ErrNoRows {
+		return nil, sgbucket.MissingError{Key: name.String()}
+	} else if err != nil {
+		return nil, err
+	}
+	if collection, ok := bucket.collections[name]; ok && collection.id == id {
+		return collection, nil
+	}
+	return bucket._initCollection(name, id), nil
+}
+
 func (bucket *Bucket) getOrCreateCollection(name sgbucket.DataStoreNameImpl, orCreate bool) (*Collection, error) {
 	bucket.mutex.Lock()
 	defer bucket.mutex.Unlock()
@@ -349,7 +368,7 @@ func (bucket *Bucket) expireDocuments() (int64, error) {
 	}
 	var count int64
 	for _, name := range names {
-		if coll, err := bucket.getCollection(name.(sgbucket.DataStoreNameImpl)); err != nil {
+		if coll, err := bucket.getCurrentCollection(name.(sgbucket.DataStoreNameImpl)); err != nil {
 			var missing sgbucket.MissingError
 			if errors.As(err, &missing) {
 				continue // the collection was dropped after we listed it: nothing left to expire there
